@@ -547,7 +547,7 @@ var (
 	// distinct scores, among them pairs that differ only in the last bits (an update must still be an update)
 	c19Scores = []float64{-2.5, 0, 0.5, math.Nextafter(0.5, 1), 1, 3, 100, 100.00000001, 1e10, 1e10 + 1, -0.001, 1.7e12, 1.70000000025e12,
 		// the ends of the float64 range: beyond the 64-bit integers, the largest and the smallest magnitudes, 2^53 and its neighbour
-		9223372036854775808, 1e19, -1e30, math.MaxFloat64, -math.MaxFloat64, math.SmallestNonzeroFloat64, 1e-7, 9007199254740992, 9007199254740994, -9223372036854775808, math.Copysign(0, -1)}
+		9223372036854775808, 1e19, -1e30, math.MaxFloat64, -math.MaxFloat64, math.SmallestNonzeroFloat64, 1e-7, 9007199254740992, 9007199254740994, -9223372036854775808, math.Copysign(0, -1), -1}
 	// values whose leading bytes look like (over-long) varints, like a metadata record of another type, or are all zero
 	c19BinaryValues = [][]byte{
 		bytes.Repeat([]byte{0xff}, 12), append(bytes.Repeat([]byte{0x80}, 10), 'x'), bytes.Repeat([]byte{0xff}, 9), {0x80},
